@@ -479,9 +479,9 @@ pub fn run(report: &Report, tier: &Tier) {
     }
     report.floor("B2-refresh", 5);
     let seed = report.seed;
-    let n: u64 = if tier.thorough { 100_000 } else { 2_400 };
+    let n: u64 = if tier.thorough { 250_000 } else { 2_400 };
     // follow-up rounds for an instance delivered in stages
-    let nf: u64 = if tier.thorough { 40_000 } else { 1_000 };
+    let nf: u64 = if tier.thorough { 120_000 } else { 1_000 };
     run_parallel(report, nf, threads(), tier.budget_s * 0.15, |i, l| {
         if i % 3 == 2 {
             verify_case(util::mix(seed, 0xC19_E000 + i), l);
